@@ -29,12 +29,6 @@ LOSES_OWN = {'TableBox', 'InlineTableBox', 'TableRowGroupBox', 'TableRowBox', 'T
 NOT_TRANSFORMABLE = {'InlineBox'}
 
 
-# Known finding `collapse-paints-background`: layout_box_backgrounds tests `visibility == 'hidden'`, so a
-# `visibility: collapse` box keeps its background.  LENIENT[0] = True evaluates the style the way the code does
-# (used only to recognise a disagreement as that finding).
-LENIENT = [False]
-
-
 def spec_bg(value, is_page=False):
     """Style-level background (S visibility colour images) -> what CSS paints for the box itself: a colour
     code, 'transparent' (a background without visible colour: images only, or the page box) or 'none'.
@@ -43,28 +37,12 @@ def spec_bg(value, is_page=False):
     if not (isinstance(value, list) and value and value[0] == 'S'):
         return value
     _, visibility, colour, images = value
-    visible = visibility in (True, 'visible') or (LENIENT[0] and visibility == 'collapse')
+    visible = visibility in (True, 'visible')
     if visible and isinstance(colour, int):
         return colour
     if is_page or (visible and images):
         return 'transparent'
     return 'none'
-
-
-def has_collapse_background(page_attrs, kids_wire):
-    """Is there a `visibility: collapse` box with a background colour or image (style-level export)?"""
-    def own(attrs):
-        values = [attrs[SLOTS.index('bg')]] + [g[1] for g in attrs[SLOTS.index('colGroups')]] + [
-            c[1] for g in attrs[SLOTS.index('colGroups')] for c in g[2]]
-        return any(isinstance(v, list) and v and v[0] == 'S' and v[1] == 'collapse' and
-                   (isinstance(v[2], int) or v[3]) for v in values)
-
-    def walk(wire):
-        while wire[0] == 'P':
-            wire = wire[1]
-        return own(wire[1]) or (wire[0] == 'N' and any(walk(k) for k in wire[2]))
-
-    return own(page_attrs) or any(walk(k) for k in kids_wire)
 
 
 def spec_matrix(value, kind):
@@ -457,19 +435,7 @@ def code_of(event):
 
 def violation(page_attrs, kids_wire, canvas, impl, exempt=True, info=None):
     """-> (text | None, findings seen).  `impl` is the implementation's display list string."""
-    what, findings = violation_once(page_attrs, kids_wire, canvas, impl, exempt, info)
-    if what and has_collapse_background(page_attrs, kids_wire):
-        LENIENT[0] = True
-        try:
-            lenient, more = violation_once(page_attrs, kids_wire, canvas, impl, exempt, info)
-        finally:
-            LENIENT[0] = False
-        if lenient is None:
-            # fully explained by the backgrounds of `visibility: collapse` boxes
-            findings = findings | more | {'collapse-paints-background'}
-            if exempt:
-                return None, findings
-    return what, findings
+    return violation_once(page_attrs, kids_wire, canvas, impl, exempt, info)
 
 
 def violation_once(page_attrs, kids_wire, canvas, impl, exempt=True, info=None):
@@ -866,21 +832,8 @@ POINT2 = {'BlockBox', 'InlineBlockBox', 'ReplacedBox', 'BlockReplacedBox', 'Inli
 
 
 def laid_out_violation(page_attrs, kids_wire, info, impl, exempt=True):
-    """-> (text | None, findings seen); see laid_out_once.  A disagreement that disappears when `visibility:
-    collapse` is read the way layout_box_backgrounds reads it is the known finding collapse-paints-background."""
-    what = laid_out_once(page_attrs, kids_wire, info, impl)
-    findings = set()
-    if what and has_collapse_background(page_attrs, kids_wire):
-        LENIENT[0] = True
-        try:
-            lenient = laid_out_once(page_attrs, kids_wire, info, impl)
-        finally:
-            LENIENT[0] = False
-        if lenient is None:
-            findings.add('collapse-paints-background')
-            if exempt:
-                what = None
-    return what, findings
+    """-> (text | None, findings seen); see laid_out_once (no known finding excuses anything here)."""
+    return laid_out_once(page_attrs, kids_wire, info, impl), set()
 
 
 def laid_out_once(page_attrs, kids_wire, info, impl):
